@@ -109,6 +109,15 @@ Definition html_expected (v : list Z) (oq : Z) (mq : bool) : list Z :=
   if plain v && (negb mq || (oq =? 0)) then v else quoted (html_quote v oq) v.
 Definition xml_quote (v : list Z) : Z := if count 39 v <? count 34 v then 39 else 34.
 
+(* what xml.EscapeAttrVal writes (since /repo a851768): the quote and TAB/LF/CR as references *)
+Definition xesc_flat (q : Z) (l : list Z) : list Z :=
+  flat_map (fun c => if c =? q then ent_of q else if c =? 9 then ent_tab else if c =? 10 then ent_lf
+                     else if c =? 13 then ent_cr else [c]) l.
+Definition xquoted (q : Z) (v : list Z) : list Z := q :: xesc_flat q v ++ [q].
+(* the size xml.EscapeAttrVal reserves for its result *)
+Definition xml_reserved (v : list Z) : Z :=
+  len v + 2 + 4 * (count 9 v + count 10 v + count 13 v) + 4 * Z.min (count 39 v) (count 34 v).
+
 (* attribute value normalisation of the xml lexer: literal TAB/LF/CR inside quotes become a space *)
 Definition xnorm (c : Z) : Z := if (c =? 9) || (c =? 10) || (c =? 13) then 32 else c.
 
